@@ -146,6 +146,13 @@ def check(case, ctx):
     for sp in specs:
         if sp[0] in 'LA' and sp[1] == sp[-1] and sp[0] == 'A':
             ctx.discard('zero-chord arc')
+        if sp[0] == 'A':
+            # arcs whose chord is below ~1e-5 of their radii are not admissible geometry (C04's KF01: the span collapses or
+            # becomes a full turn; a translation merges the end points and the constructor refuses the result)
+            from vp.ref import arc_ref
+            L = arc_ref.lam(sp[1], sp[2][0], sp[2][1], sp[3], sp[6])
+            if not (1e-10 < L < 1e10):
+                ctx.discard('arc chord/radius ratio extreme')
     if case.get('via') == 'reversed_after_queries':
         # the path under test is obtained from another path whose caches were already filled
         p0 = ctx.lib('build', gen.build_path, specs)
